@@ -113,6 +113,16 @@ func genC14(kind string, seed int64) *c14Case {
 				a.Lines = other.ACLs[i].Lines
 			}
 		}
+		// Groups the copied lines refer to.
+		have := map[string]bool{}
+		for _, gr := range d.Groups {
+			have[gr.Name] = true
+		}
+		for _, gr := range other.Groups {
+			if !have[gr.Name] {
+				d.Groups = append(d.Groups, gr)
+			}
+		}
 		if len(other.Routes) > 0 && kind == "asa" {
 			// keep interface names valid
 			d.Routes = nil
@@ -335,6 +345,10 @@ func genC14(kind string, seed int64) *c14Case {
 			a.Lines = mcisco.DedupLines(a.Lines, kind == "ios")
 			c.Edits = []string{"acl-dense-edits"}
 		}
+	}
+	if c.Mode != "edits" {
+		// The aimed modes set their ACLs after Device() has run.
+		gen.AddRemarks(d, t)
 	}
 	c.Device = d.Text(true)
 	c.Files = map[string]string{"router": t.Text(false)}
